@@ -152,6 +152,10 @@ fn check_encode_contract(with_imm: bool) {
     let want = dec_of_repr(&r);
     let words = r.encode();
     assert!(words.len() == if with_imm { 2 } else { 1 }, "C16-2 encode: one word, plus one iff imm");
+    if with_imm {
+        // the immediate (a fresh concrete 7 here; `encode` never inspects it) is moved unchanged
+        assert!(words[1].sign() == num_bigint::Sign::Plus && words[1].magnitude().to_u64() == Some(7), "C16-2 encode: immediate word is the immediate");
+    }
     let w = words[0].to_u128();
     assert!(w.is_some(), "C16-3 encode: word fits");
     assert!(spec_decode(w.unwrap()) == Some(want), "C16-3 encode: decode(encode(r)) == r, every field, all offsets");
